@@ -13,11 +13,11 @@ blocks = re.split(r'^=== ', log, flags=re.M)[1:]
 rows = []
 for b in blocks:
     head = b.splitlines()[0]
-    m = re.match(r'(C\d+) m(\d):', head)
+    m = re.match(r'(C\d+) m(\d+):', head)
     if not m:
         continue
     pid, k = m.group(1), m.group(2)
-    sm = re.search(r'^src: (\S+)/m(\d)$', b, flags=re.M)
+    sm = re.search(r'^src: (\S+)/m(\d+)$', b, flags=re.M)
     if sm:
         src, n = sm.group(1), sm.group(2)
     else:
